@@ -185,6 +185,7 @@ func runC06(r *rep.Report, thorough bool) error {
 	o.Structs = 5
 	cases := genCases(rng, n, "d", o)
 	cases = append(cases, synth.HandWritten()...)
+	cases = append(cases, synth.CaseOnlyNames()...)
 	l, err := load.Cases(cases)
 	if err != nil {
 		return err
